@@ -275,10 +275,10 @@ func runC02(x *xctx) *violation {
 			name, data = c.name, c.data
 		}
 	}
-	if data == nil && t.Bool(K, 20) {
-		// A seeded legacy binary CPU profile (profilez): 64-bit little-endian
-		// words, a small address universe so that repeated frames and shared
-		// addresses are the norm, and a /proc/maps style trailer.
+	// A seeded legacy binary CPU profile (profilez): 64-bit little-endian
+	// words, a small address universe so that repeated frames and shared
+	// addresses are the norm, and a /proc/maps style trailer.
+	genProfilez := func() (string, []byte) {
 		var buf bytes.Buffer
 		w64 := func(v uint64) {
 			var b [8]byte
@@ -316,7 +316,10 @@ func runC02(x *xctx) *violation {
 			tr = "00400000-00500000 r-xp 00000000 fd:01 1234       " + dictStr(t, "/bin/prog") + "\n"
 		}
 		buf.WriteString("MAPPED_LIBRARIES:\n" + tr)
-		name, data = "generated.profilez", buf.Bytes()
+		return "generated.profilez", buf.Bytes()
+	}
+	if data == nil && t.Bool(K, 20) {
+		name, data = genProfilez()
 	}
 	genProto := func() (string, []byte) {
 		p := genProfile(t, genOpts{labels: true, inlines: true, negative: true, odd: t.Bool(K, 30), maxFuncs: 4, maxSamples: 4})
@@ -385,8 +388,11 @@ func runC02(x *xctx) *violation {
 	// generated profiles through the same parse-and-downstream pipeline. Each
 	// costs one execution, against the ~1700 damaged ones of the entry above,
 	// and keeps the variety of well-formed inputs from being the bottleneck.
-	for i := 0; i < 24; i++ {
+	for i := 0; i < 32; i++ {
 		n2, d2 := genProto()
+		if i%4 == 3 {
+			n2, d2 = genProfilez()
+		}
 		simos.PutFile(path, d2)
 		r2, v := c02Try(x, path, true)
 		if v != nil {
